@@ -22,9 +22,9 @@ Lemma cw_facts :
   cw_src_mode = CwMatch /\
   (* F-C17-b, -c, -d, -e are fixed: whole chunk copied, template names escaped, exactly two name parts, numbers round-trip *)
   cw_chunk_whole = true /\ cw_src_import_escaped = true /\ cw_src_name_exact = true /\ cw_src_number_roundtrip = true /\
-  (* every keyword of the lexer that the writer does not know is one of `debugger`, `in`: such a bare key
-     makes the object fail to compile (nothing is created), it cannot inject *)
-  filter (fun k => negb (cw_mem k cw_writer_keywords)) cw_lexer_keywords =
-    [[100; 101; 98; 117; 103; 103; 101; 114]; [105; 110]] /\
+  (* the writer knows EVERY keyword of the lexer (fix 918cf68 added `debugger`, `in`): no key is written bare and read back
+     as a keyword.  Before the fix this list was [debugger; in]: such a key made a created object fail to compile (cleanly)
+     and made modified-attributes.conf uncompilable (C14 finding modattr-keyword-key) *)
+  cw_lexer_only = [] /\
   forallb (fun k => cw_mem k cw_lexer_keywords) [cw_s_null; cw_s_true; cw_s_false; cw_s_object; cw_s_import; cw_s_ignore_on_error] = true.
 Proof. repeat split; reflexivity. Qed.
